@@ -37,6 +37,10 @@ algorithms of GEOS are *not* modelled.  What is proved here is about the certifi
   interior — a Jordan-curve type fact that is NOT proved here).  The checker does not rely on it for
   disjointness (all pairs are tested exactly: `Separated`, `separated_no_common_interior`), and adds the exact
   centroid-inside test for every triangle.
+* `cdt_collection_checker_sound`, `cdt_collection_cover_count`, `cdt_collection_triangle_in_one_component` — collections
+  of polygons with pairwise disjoint interiors (components may share edges): accepted output splits, by the exact centroid
+  test and without any assumption on its order, into one constrained Delaunay triangulation per component; the common edge of
+  two components is a constraint of both, so no accepted triangle straddles it.
 * `inCircleLoc_spec`, `robust_filter_sound`, `flip_only_if_in_circle`, `improver_flip_only_if_in_circle` — about the decisions GEOS
   itself takes (`Model/Tri/Predicates.lean`; `Props/C16Gen.lean` proves the definitions regenerated from
   `TrianglePredicate.cpp`, `Vertex.h`, `TriDelaunayImprover.cpp` equal to them): in exact arithmetic the filtered in-circle test
@@ -250,6 +254,42 @@ theorem cdt_cover_partial (rings : List (List Pt)) (tris : List Tri) (h : isCDTO
   exact ⟨fun hin => by rw [hc]; exact h1 hin, fun hout => by rw [hc]; exact h0 hout⟩
 
 
+/-- **collections of polygons** (`GEOSConstrainedDelaunayTriangulation_r` on a GeometryCollection / MultiPolygon): accepted
+output splits — by the exact centroid test, no assumption on the output order — into one group per component polygon, every
+output triangle lies in exactly one group, and group `i` satisfies every clause of `IsCDT` for component `i` together with
+the constrained-Delaunay condition on the edges shared inside the group.  In particular (clause `corners_are_vertices`
+of the group) no output triangle has corners from two different components unless they are vertices of its own. -/
+theorem cdt_collection_checker_sound (polys : List (List (List Pt))) (tris : List Tri)
+    (h : isCDTOfCollection polys tris = true) : IsCDTCollection polys tris :=
+  isCDTOfCollection_sound polys tris h
+
+/-- the covering count, per component of an accepted collection output: for a point in general position the number of
+triangles of group `i` that contain it strictly is the winding number of component `i`'s oriented boundary, and is 0 or 1 -/
+theorem cdt_collection_cover_count (polys : List (List (List Pt))) (tris : List Tri) (h : isCDTOfCollection polys tris = true)
+    (rings : List (List Pt)) (hr : rings ∈ polys) (p : Pt)
+    (hpT : ∀ e ∈ triEdges ((trisIn rings tris).map Tri.ccw), OffLine p e) (hpB : ∀ e ∈ polyBoundary rings, OffLine p e) :
+    countIn ((trisIn rings tris).map Tri.ccw) p = sumInt ((polyBoundary rings).map (wind p)) ∧
+    (countIn ((trisIn rings tris).map Tri.ccw) p = 0 ∨ countIn ((trisIn rings tris).map Tri.ccw) p = 1) := by
+  simp only [isCDTOfCollection, Bool.and_eq_true, List.all_eq_true] at h
+  exact cdt_cover_count rings (trisIn rings tris) (h.2 rings hr).1 p hpT hpB
+
+/-- every output triangle of an accepted collection output has its three corners among the vertices of the ONE component
+that owns it (so a triangle straddling the common edge of two components is rejected) -/
+theorem cdt_collection_triangle_in_one_component (polys : List (List (List Pt))) (tris : List Tri)
+    (h : isCDTOfCollection polys tris = true) (t : Tri) (ht : t ∈ tris) :
+    ∃ rings ∈ polys, ownedBy rings t = true ∧ (∀ p ∈ t.corners, ∃ r ∈ rings, p ∈ r) ∧
+      ∀ rings' ∈ polys, ownedBy rings' t = true → (polys.filter (fun r => ownedBy r t)) = [rings'] := by
+  have hs := isCDTOfCollection_sound polys tris h
+  obtain ⟨⟨rings, hr, ho⟩, hlen⟩ := hs.unique_owner t ht
+  refine ⟨rings, hr, ho, ?_, ?_⟩
+  · exact (hs.component rings hr).1.corners_are_vertices t ((hs.groups_are_output rings t).mpr ⟨ht, ho⟩)
+  · intro rings' hr' ho'
+    obtain ⟨x, hx⟩ := List.length_eq_one_iff.mp hlen
+    have : rings' ∈ polys.filter (fun r => ownedBy r t) := List.mem_filter.mpr ⟨hr', ho'⟩
+    rw [hx] at this ⊢
+    simp only [List.mem_singleton] at this
+    rw [this]
+
 /-! ### the decisions of the implementation (tied to the C++ by the translator, `Props/C16Gen.lean`) -/
 
 /-- **`isInCircleNormalized` / the exact in-circle answer means the circumcircle.**  For a counter-clockwise triangle
@@ -362,6 +402,17 @@ example : (isCDTOf [[⟨0,0⟩,⟨2,0⟩,⟨2,1⟩,⟨1,1⟩,⟨1,2⟩,⟨0,2⟩
     [⟨⟨0,0⟩,⟨2,0⟩,⟨2,1⟩⟩, ⟨⟨0,0⟩,⟨2,1⟩,⟨1,1⟩⟩, ⟨⟨0,0⟩,⟨1,1⟩,⟨0,2⟩⟩, ⟨⟨1,1⟩,⟨1,2⟩,⟨0,2⟩⟩]) = true := by decide
 example : (isCDTOf [[⟨0,0⟩,⟨2,0⟩,⟨2,2⟩,⟨0,2⟩,⟨0,0⟩]]
     [⟨⟨0,0⟩,⟨2,0⟩,⟨2,1⟩⟩, ⟨⟨0,0⟩,⟨2,1⟩,⟨1,1⟩⟩, ⟨⟨0,0⟩,⟨1,1⟩,⟨0,2⟩⟩, ⟨⟨1,1⟩,⟨1,2⟩,⟨0,2⟩⟩]) = false := by decide
+
+/-- collections: two thin triangles glued along their long side (a valid GeometryCollection).  The two input triangles are
+accepted; the pair obtained by flipping the common (constraint) edge — triangles straddling both components — is rejected -/
+example : isCDTOfCollection [[[⟨0,0⟩,⟨5,1⟩,⟨10,0⟩,⟨0,0⟩]], [[⟨0,0⟩,⟨10,0⟩,⟨5,-1⟩,⟨0,0⟩]]]
+    [⟨⟨0,0⟩,⟨5,1⟩,⟨10,0⟩⟩, ⟨⟨0,0⟩,⟨10,0⟩,⟨5,-1⟩⟩] = true ∧
+  isCDTOfCollection [[[⟨0,0⟩,⟨5,1⟩,⟨10,0⟩,⟨0,0⟩]], [[⟨0,0⟩,⟨10,0⟩,⟨5,-1⟩,⟨0,0⟩]]]
+    [⟨⟨0,0⟩,⟨5,-1⟩,⟨5,1⟩⟩, ⟨⟨5,-1⟩,⟨10,0⟩,⟨5,1⟩⟩] = false := by decide
+/-- … although, as ONE polygon (the rhombus), the flipped pair is the constrained Delaunay triangulation and the unflipped one is not -/
+example : (isCDTOf [[⟨0,0⟩,⟨5,-1⟩,⟨10,0⟩,⟨5,1⟩,⟨0,0⟩]] [⟨⟨0,0⟩,⟨5,-1⟩,⟨5,1⟩⟩, ⟨⟨5,-1⟩,⟨10,0⟩,⟨5,1⟩⟩] &&
+    isConstrainedDelaunay [⟨⟨0,0⟩,⟨5,-1⟩,⟨5,1⟩⟩, ⟨⟨5,-1⟩,⟨10,0⟩,⟨5,1⟩⟩]) = true ∧
+  isConstrainedDelaunay [⟨⟨0,0⟩,⟨5,1⟩,⟨10,0⟩⟩, ⟨⟨0,0⟩,⟨10,0⟩,⟨5,-1⟩⟩] = false := by decide
 
 /-- the covering count is not vacuous: the point (3,2) (on no edge line) is strictly inside exactly one of the four
 triangles and the hull boundary winds once around it; (5,2) is outside: count 0, winding number 0 -/
